@@ -19,11 +19,15 @@ CHECKS = {
                      'subject launched), none failed, none shut down for non-aggregators. Exploration is the right level: the '
                      'property quantifies over interleavings of controller callbacks, which only a controlled scheduler can place.',
                 note=E1_NOTE),
-    'C02': dict(check='c02', engine='E1-runtime-sim', category='exploration', design='§3 C02',
+    'C02': dict(check='c02', also=['c02loop'], engine='E1-runtime-sim', category='exploration', design='§3 C02',
                 technique='deterministic simulation with fault injection, final states vs executable reference model of the documented rules, bounded-termination liveness',
                 text='same simulated runs judged after the stage loop: one stable final state per component, states equal the '
                      'rule model fed with the observed exit reasons (or failed/shut-down verdict rules), stage loop terminates '
-                     'within a virtual-time bound; three listed open findings (lost POSTMORTEM edge) are reported as KNOWN-FINDING.',
+                     'within a virtual-time bound; the listed open findings (lost POSTMORTEM edge) are reported as KNOWN-FINDING. Second half '
+                     'of the command (c02loop): DoWhile packages (one or two documents) under the same Controller with task failures '
+                     'inside the loop body at a seeded iteration, judged with the clauses that need no loop-specific rule '
+                     '(termination, one stable final state incl. instances created on the way, no failure / k iterations when every '
+                     'history ends in Success, failed component + failed stage otherwise).',
                 note=E1_NOTE),
     'C12': dict(check='c12', engine='E1-runtime-sim', category='exploration', design='§3 C12',
                 technique='deterministic simulation with fault injection (exit-reason sequences, launch failures, restart-hook answers), launch history vs restart policy',
